@@ -113,7 +113,7 @@ func init() {
 							cases = append(cases, c14Case{Type: tn(t), C: C, P: L, L: L, Whole: true, Chan: ch})
 						}
 					}
-					// long parents (tokens stay below 120: storage of at most 100 cells)
+					// long parents
 					if L := 96 / C; C <= 4 {
 						for ch := 0; ch < C; ch++ {
 							cases = append(cases, c14Case{Type: tn(t), C: C, P: L, L: L, Whole: true, Chan: ch})
@@ -122,12 +122,25 @@ func init() {
 					}
 				}
 			}
+			for _, t := range []int{dyn.Int8, dyn.Uint16, dyn.Float64} { // many channels; long parents
+				for _, C := range []int{9, 17, 65} {
+					for ch := 0; ch < C; ch++ {
+						cases = append(cases, c14Case{Type: tn(t), C: C, P: 3, S: 1, L: 2, Chan: ch})
+						cases = append(cases, c14Case{Type: tn(t), C: C, P: 3, S: 0, L: 2, Chan: ch, R: C / 2})
+					}
+				}
+				for _, C := range []int{1, 2, 3} {
+					for ch := 0; ch < C; ch++ {
+						cases = append(cases, c14Case{Type: tn(t), C: C, P: 1200, S: 50, L: 1100, Chan: ch})
+					}
+				}
+			}
 			c.ParallelFor(len(cases), func(i int) {
 				c.Check(cases[i], cases[i].L > 0 || cases[i].R > 0, c14Run(cases[i]))
 			})
 			c.Sample(cases[100])
 			c.Sample(cases[len(cases)-1])
-			c.Set("rule", "13 element types x C in 1..8 x parent = whole buffer of 0..3 frames or window [S,S+L) (S in 0..2, L in 0..3, with and without a spare frame after it, and with 1..C-1 samples appended into that spare frame: partly filled last frame) x every channel c; inside a case every index i < Length is read, its BufferIndex taken, written with a fresh token (whole storage diffed) and read back; non-trivial = Length > 0; cases distinct by construction")
+			c.Set("rule", "13 element types x C in 1..8 x parent = whole buffer of 0..3 frames or window [S,S+L) (S in 0..2, L in 0..3, with and without a spare frame after it, and with 1..C-1 samples appended into that spare frame: partly filled last frame) x every channel c; plus 9, 17 and 65 channels and 1100-frame windows for 3 types; inside a case every index i < Length is read, its BufferIndex taken, written with a fresh token (whole storage diffed) and read back; non-trivial = Length > 0; cases distinct by construction")
 			c.Assume("windows are taken with Slice (C02)")
 		},
 		RunCase: func(c *core.Ctx, raw json.RawMessage) []F { return c14Run(decode[c14Case](raw)) },
